@@ -103,7 +103,11 @@ def check_call(contract: Contract, call: Callable[[], Any], ns_args: Dict[str, A
             out.failed_clause = "raises#%s" % matched
             out.detail = "raised %s although its condition does not hold" % matched
         return out
-    out.observed = "returned %r" % (result,) if not isinstance(result, (list, dict)) or len(repr(result)) < 200 else "returned (large)"
+    try:
+        out.observed = "returned %r" % (result,) if not isinstance(result, (list, dict)) or len(repr(result)) < 200 else "returned (large)"
+    except Exception:  # e.g. CPython's int -> str digit limit inside a __repr__
+        out.observed = "returned <%s> (repr failed)" % type(result).__name__
+    out.observed = out.observed[:300]
     for xname, val in expected.items():
         if val:
             out.ok = False
